@@ -307,4 +307,174 @@ theorem xclaimE_for {n : Nat} (hFE : FClaimE n) (hF : XClaimF n) {ls : List (Opt
   | brk l rs2 => rw [h1] at hs4'; exact hs4'.elim
   | cont l rs2 => rw [h1] at hs4'; exact hs4'.elim
 
+theorem LoopsFinal.nl {gs' : GS} {s s' : St} (h : LoopsFinal gs' s) (hf : FrameNL s s') : LoopsFinal gs' s' :=
+  ⟨Nat.le_trans h.1 hf.loopsLen, fun id h1 h2 => by
+    rw [hf.loops id (Nat.lt_of_lt_of_le h1 h.1)]; exact h.2 id h1 h2⟩
+
+theorem xclaimE_succ {n : Nat} (hFE1 : FClaimE (n + 1)) (hFE : FClaimE n) (hL : FClaimL n) (hP : FClaimP n)
+    (hE : XClaimE n) (hB : XClaimB n) (hC : XClaimC n) (hN : XClaimN n) (hF : XClaimF n) : XClaimE (n + 1) := by
+  intro ls e he isFn c gs r hc hfn Γ hls hg m s rs env pre post hrel hgen hctx hlf hlo hseg
+  have hfnok : FnameOk "" c := Or.inr (Or.inl hfn)
+  have hff : Ff true "" e = true → SimX r.1.1 Γ m s rs env (Ref.eval (n + 1) e env rs) := fun h =>
+    (hFE1 true "" e h isFn c gs r hc hfnok m s rs env pre post hrel (fun _ => hgen) hseg).toX
+  cases e with
+  | break_ l =>
+    rw [Fx] at he
+    obtain ⟨γ, hγ, hmem⟩ := findCtx_ok hls he
+    rw [compile_brk_eq hg hγ hmem] at hc
+    injection hc with hc; subst hc
+    rw [Ref.eval]
+    exact simX_brk hγ hmem hctx hrel hseg
+  | continue_ l =>
+    rw [Fx] at he
+    obtain ⟨γ, hγ, hmem⟩ := findCtx_ok hls he
+    rw [compile_cont_eq hg hγ hmem] at hc
+    injection hc with hc; subst hc
+    rw [Ref.eval]
+    exact simX_cont hγ hmem hctx hrel hseg
+  | begin_ es =>
+    rw [Fx] at he
+    cases es with
+    | nil => exact hff (by simp [Ff, FfList])
+    | cons e0 es0 =>
+      rw [compile] at hc
+      · rw [Ref.eval]
+        exact hB ls (e0 :: es0) (by simp) he isFn c gs r hc hfn Γ hls hg m s rs env pre post hrel hgen hctx hlf hlo hseg
+      · intro hh; cases hh
+  | cond arms d =>
+    rw [Fx] at he
+    simp only [Bool.and_eq_true] at he
+    rw [compile] at hc
+    simp only [g_bind_ok, g_pure_ok] at hc
+    obtain ⟨rd, gs1, hd, as, gs2, has, rfl⟩ := hc
+    obtain ⟨_, totd⟩ := compile_tot_Fx he.2 hfn hg hls hd
+    have tota := compileArms_tot_Fx he.1 hfn (hg.keep totd.1) hls has
+    rw [Ref.eval]
+    exact hC ls arms d he.1 he.2 isFn c gs1 (as, gs2) gs (rd, gs1) has hd hfn Γ hls (hg.keep totd.1) hg m s rs env pre post hrel
+      (hgen.rest totd.1) (hgen.first tota.1) hctx hlf (hlf.first tota.1) (hlo.mono totd.2.1 (Nat.le_refl _))
+      (hlo.mono (Nat.le_refl _) tota.2.1) (Nat.le_refl _) hseg
+  | newScope es =>
+    rw [Fx] at he
+    simp only [Bool.and_eq_true, Bool.not_eq_true', List.isEmpty_eq_false_iff] at he
+    cases es with
+    | nil => exact absurd rfl he.1
+    | cons e0 es0 =>
+      rw [compile] at hc
+      · simp only [g_bind_ok, g_pure_ok] at hc
+        obtain ⟨ra, gs1, ha, rfl⟩ := hc
+        rw [Ref.eval]
+        show SimX _ Γ m s rs env (Ref.evalBegin n (e0 :: es0) rs.frames.length (Ref.newFrame rs env).2)
+        exact SimX.scoped hseg hrel (hN ls (e0 :: es0) he.1 he.2 isFn _ _ gs (ra, gs1) ha hfn Γ hls hg m _ _ _ _ _
+          hrel.pushScope (hgen.mono (FnsKeep.of_fns_eq rfl)) hctx.pushScope (hlf.nl (FrameNL.pushScope s))
+          (hlo.app (lsOut_one .addScope _ _)) hseg.inner)
+      · intro hh; cases hh
+  | let_ seq bs body =>
+    rw [Fx] at he
+    simp only [Bool.and_eq_true, Bool.not_eq_true', List.isEmpty_eq_false_iff] at he
+    obtain ⟨⟨⟨hseq, hbody⟩, hbs⟩, hbl⟩ := he
+    rw [compile] at hc
+    simp only [g_bind_ok, g_pure_ok] at hc
+    obtain ⟨ra, gs1, ha, rb, gs2, hb, rfl⟩ := hc
+    have hfnok' : FnameOk "" { c with scopes := c.scopes + 1, tail := false } := Or.inr (Or.inl hfn)
+    have hfn'' : ({ c with scopes := c.scopes + 1 } : Ctx).funcname = "" := hfn
+    have hk1 := compileBinds_keep_Ff hbs ha hfnok'
+    have hl1 := compileBinds_ls_Ff true "" bs hbs isFn _ seq gs _ ha hfnok'
+    have tot2 := compileBegin_tot_Fx hbody hbl hfn'' (hg.keep hk1.1) hls hb
+    have hnl : FrameNL s s.pushScope := FrameNL.pushScope s
+    cases seq
+    · -- parallel
+      have hnd : (bs.map (·.1)).Nodup := by simpa using hseq
+      have hcode : ([Instr.addScope] ++ ra.1 ++ (if False then [] else (List.map (fun p => Instr.popStackPutEnv p.fst) bs).reverse)
+          ++ rb.1 ++ [Instr.removeScope])
+          = [Instr.addScope] ++ (ra.1 ++ (bs.map (fun p => Instr.popStackPutEnv p.1)).reverse ++ rb.1) ++ [Instr.removeScope] := by
+        simp
+      simp only [Bool.false_eq_true, hcode] at hseg hgen hlf hlo ⊢
+      rw [Ref.eval]
+      show SimX _ Γ m s rs env (if false = true then _ else
+          (match Ref.evalList n (bs.map (·.2)) rs.frames.length (Ref.newFrame rs env).2 with
+           | .ok vs s => (match Ref.bindAll s rs.frames.length (bs.map (·.1)) vs with
+              | some s => Ref.evalBegin n body rs.frames.length s
+              | none => .err s)
+           | .err s => .err s | .brk l s => .brk l s | .cont l s => .cont l s | .timeout => .timeout))
+      rw [if_neg (by decide)]
+      refine SimX.scoped hseg hrel ?_
+      have hseg1 := hseg.inner
+      have hU := letpar_binds hP isFn _ gs (ra, gs1) ha hfnok' hnd hbs m s.pushScope (Ref.newFrame rs env).2 rs.frames.length _ _
+        hrel.pushScope (fun _ => (hgen.first tot2.1).mono (FnsKeep.of_fns_eq rfl))
+        (hseg1.refocus (c' := ra.1 ++ (bs.map (fun p => Instr.popStackPutEnv p.1)).reverse)
+          (post' := rb.1 ++ ([.removeScope] ++ post)) (by simp))
+      cases h1 : Ref.evalList n (bs.map (·.2)) rs.frames.length (Ref.newFrame rs env).2 with
+      | ok vs rs2 =>
+        rw [h1] at hU
+        simp only at hU ⊢
+        cases h2 : Ref.bindAll rs2 rs.frames.length (bs.map (·.1)) vs with
+        | some rs3 =>
+          rw [h2] at hU
+          obtain ⟨s2, m2, r2, mv2, rel2, hm2, ext2, fr2⟩ := hU
+          simp only
+          have ihb := hB ls body hbody hbl isFn _ gs1 (rb, gs2) hb hfn'' Γ hls (hg.keep hk1.1) m2 s2 rs3 _ _ _ rel2
+            (((hgen.rest hk1.1).mono (s' := s.pushScope) (FnsKeep.of_fns_eq rfl)).frame fr2.toFrame)
+            (hctx.pushScope.moved mv2 fr2 ext2) ((hlf.nl hnl).frame fr2.toFrame)
+            (((hlo.mono hl1.1 (Nat.le_refl _)).app (lsOut_one .addScope _ _)).app
+              (LsOut.app (hl1.2.below (Nat.le_refl _))
+                (fun l hl => by simp only [List.mem_reverse, List.mem_map] at hl; obtain ⟨_, _, hh⟩ := hl; cases hh)))
+            (hseg1.moved mv2 (c₁ := ra.1 ++ (bs.map (fun p => Instr.popStackPutEnv p.1)).reverse) (c₂ := rb.1)
+              (post' := [.removeScope] ++ post) (by simp) rfl)
+          exact SimX.seq r2 mv2 hm2 ext2 fr2 ihb (by simp only [List.length_append])
+        | none => rw [h2] at hU; exact hU
+      | err rs2 => rw [h1] at hU; exact hU
+      | timeout => trivial
+      | brk l rs2 => rw [h1] at hU; exact hU.elim
+      | cont l rs2 => rw [h1] at hU; exact hU.elim
+    · -- sequential
+      have hcode : ([Instr.addScope] ++ ra.1 ++ (if True then [] else (List.map (fun p => Instr.popStackPutEnv p.fst) bs).reverse)
+          ++ rb.1 ++ [Instr.removeScope]) = [Instr.addScope] ++ (ra.1 ++ rb.1) ++ [Instr.removeScope] := by simp
+      simp only [hcode] at hseg hgen hlf hlo ⊢
+      rw [Ref.eval]
+      show SimX _ Γ m s rs env (if true = true then
+          (match Ref.evalLetSeq n bs rs.frames.length (Ref.newFrame rs env).2 with
+           | .ok _ s => Ref.evalBegin n body rs.frames.length s
+           | .err s => .err s | .brk l s => .brk l s | .cont l s => .cont l s | .timeout => .timeout)
+        else _)
+      rw [if_pos rfl]
+      refine SimX.scoped hseg hrel ?_
+      have hseg1 := hseg.inner
+      have hUl := hL true "" bs hbs isFn _ gs (ra, gs1) ha hfnok' m _ _ _ _ _ hrel.pushScope
+        (fun _ => (hgen.first tot2.1).mono (FnsKeep.of_fns_eq rfl))
+        (hseg1.refocus (c' := ra.1) (post' := rb.1 ++ ([.removeScope] ++ post)) (by simp))
+      cases h1 : Ref.evalLetSeq n bs rs.frames.length (Ref.newFrame rs env).2 with
+      | ok u rs2 =>
+        rw [h1] at hUl
+        obtain ⟨s2, m2, r2, mv2, rel2, hm2, ext2, fr2⟩ := hUl
+        have ihb := hB ls body hbody hbl isFn _ gs1 (rb, gs2) hb hfn'' Γ hls (hg.keep hk1.1) m2 s2 rs2 _ _ _ rel2
+          (((hgen.rest hk1.1).mono (s' := s.pushScope) (FnsKeep.of_fns_eq rfl)).frame fr2.toFrame)
+          (hctx.pushScope.moved mv2 fr2 ext2) ((hlf.nl hnl).frame fr2.toFrame)
+          (((hlo.mono hl1.1 (Nat.le_refl _)).app (lsOut_one .addScope _ _)).app (hl1.2.below (Nat.le_refl _)))
+          (hseg1.moved mv2 (c₁ := ra.1) (c₂ := rb.1) (post' := [.removeScope] ++ post) (by simp) rfl)
+        exact SimX.seq r2 mv2 hm2 ext2 fr2 ihb (by lenarith)
+      | err rs2 => rw [h1] at hUl; exact hUl
+      | timeout => trivial
+      | brk l rs2 => rw [h1] at hUl; exact hUl.elim
+      | cont l rs2 => rw [h1] at hUl; exact hUl.elim
+  | for_ label init test incr body =>
+    rw [Fx] at he
+    simp only [Bool.and_eq_true] at he
+    obtain ⟨⟨⟨hi, ht⟩, hs⟩, hb⟩ := he
+    exact xclaimE_for hFE hF hi ht hs hb isFn c gs r hc hfn Γ hls hg m s rs env pre post hrel hgen hctx hlf hlo hseg
+  | int v => rw [Fx] at he; exact hff he
+  | bool v => rw [Fx] at he; exact hff he
+  | str v => rw [Fx] at he; exact hff he
+  | nilLit => rw [Fx] at he; exact hff he
+  | sym x => rw [Fx] at he; exact hff he
+  | arr es => rw [Fx] at he; exact hff he
+  | call f args => rw [Fx] at he; exact hff he
+  | def_ x e => rw [Fx] at he; exact hff he
+  | set_ x e => rw [Fx] at he; exact hff he
+  | and_ es => rw [Fx] at he; exact hff he
+  | or_ es => rw [Fx] at he; exact hff he
+  | fn ps rest body => rw [Fx] at he; exact hff he
+  | defn name ps rest body => rw [Fx] at he; exact hff he
+  | assign _ _ => simp [Fx] at he
+  | bad _ => simp [Fx] at he
+
 end ZygoVerif.Sim
